@@ -348,6 +348,60 @@ class LibObj:
 
 
 MISSING = object()
+LOOP_CARRIED = object()  # a local whose value after a summarised loop depends on how often the loop ran: reading it is outside the subset
+
+
+def stored_names(stmts):
+    """Names bound by the statements themselves (not by nested function / class / comprehension scopes)."""
+    out = set()
+
+    def walk(n):
+        if isinstance(n, (ast.FunctionDef, ast.AsyncFunctionDef, ast.ClassDef)):
+            out.add(n.name)
+            return
+        if isinstance(n, (ast.Lambda, ast.ListComp, ast.SetComp, ast.DictComp, ast.GeneratorExp)):
+            for x in ast.walk(n):  # the walrus operator binds in the enclosing function
+                if isinstance(x, ast.NamedExpr):
+                    out.add(x.target.id)
+            return
+        if isinstance(n, ast.Name) and isinstance(n.ctx, (ast.Store, ast.Del)):
+            out.add(n.id)
+        elif isinstance(n, ast.ExceptHandler) and n.name:
+            out.add(n.name)
+        elif isinstance(n, (ast.Import, ast.ImportFrom)):
+            for a in n.names:
+                out.add((a.asname or a.name).split(".")[0])
+        elif isinstance(n, (ast.MatchAs, ast.MatchStar)) and n.name:
+            out.add(n.name)
+        for ch in ast.iter_child_nodes(n):
+            walk(ch)
+    for s in stmts:
+        walk(s)
+    return out
+
+
+def function_locals(func):
+    """The names the compiler treats as locals of `func`: its parameters and every name its body binds, minus global/nonlocal."""
+    if "locals" not in func.marks:
+        a = func.node.args
+        names = {x.arg for x in a.posonlyargs + a.args + a.kwonlyargs}
+        for x in (a.vararg, a.kwarg):
+            if x is not None:
+                names.add(x.arg)
+        names |= stored_names(func.node.body)
+        declared = set()
+
+        def decl(n):
+            if isinstance(n, (ast.FunctionDef, ast.AsyncFunctionDef, ast.ClassDef, ast.Lambda)):
+                return
+            if isinstance(n, (ast.Global, ast.Nonlocal)):
+                declared.update(n.names)
+            for ch in ast.iter_child_nodes(n):
+                decl(ch)
+        for s in func.node.body:
+            decl(s)
+        func.marks["locals"] = names - declared
+    return func.marks["locals"]
 
 
 class Frame:
